@@ -453,6 +453,124 @@ def h_crs_pickle():
 
 
 
+# ---- E7: transformer cache under construction / destruction histories -----------------------------------------
+class _Heap:
+    """abstract addresses: an object gets one when created and gives it back when the last real
+    reference to it goes away (CPython reference counting does the bookkeeping); the allocator is
+    adversarial and hands out the most recently freed address first (what CPython's small-object
+    allocator typically does)"""
+
+    free: list = []
+    nxt = 1000
+
+    @classmethod
+    def reset(cls):
+        cls.free, cls.nxt = [], 1000
+
+    @classmethod
+    def alloc(cls):
+        if cls.free:
+            return cls.free.pop()
+        cls.nxt += 16
+        return cls.nxt
+
+
+class _HCRS:
+    """pyproj.CRS stand-in living on the abstract heap"""
+
+    def __init__(self, spec):
+        self.spec = spec
+        self.addr = _Heap.alloc()
+
+    def __del__(self):
+        _Heap.free.append(self.addr)
+
+    @classmethod
+    def from_user_input(cls, s):
+        return cls(str(s).upper())
+
+    @classmethod
+    def from_epsg(cls, n):
+        return cls(f"EPSG:{n}")
+
+    def __str__(self):
+        return self.spec
+
+    def __eq__(self, o):
+        return isinstance(o, _HCRS) and o.spec == self.spec
+
+    def __hash__(self):
+        return hash(self.spec)
+
+    def to_epsg(self):
+        return int(self.spec.split(":")[1])
+
+
+class _HTransformer:
+    def __init__(self, src, dst, always_xy):
+        self.src_spec, self.dst_spec, self.always_xy = src.spec, dst.spec, always_xy
+
+    @classmethod
+    def from_crs(cls, a, b, always_xy=False):
+        return cls(a, b, always_xy)
+
+
+def h_transformer_step():
+    """one step from a state constructed directly: the CRS cache is full (at its capacity if it
+    has one, else 24 entries, all wrappers dropped so only the library keeps the objects alive),
+    the transformer cache holds an entry for a symbolic pair of cached objects; then a CRS is
+    built from a specification not seen before, and a transformer is requested from it: it must
+    be one built for exactly the requested pair (an entry keyed by a recycled address is stale)"""
+    import gc
+
+    import odc.geo.crs as crs_mod
+    from odc.geo.crs import CRS
+
+    saved = (crs_mod._CRS, crs_mod.Transformer, crs_mod.__dict__.get("id"))
+    crs_mod._CRS, crs_mod.Transformer = _HCRS, _HTransformer
+    crs_mod.id = lambda o: o.addr if isinstance(o, _HCRS) else id(o)
+    crs_mod._crs_cache.clear()
+    crs_mod._make_crs_transform.cache.clear()
+    _Heap.reset()
+    try:
+        cap = getattr(crs_mod._crs_cache, "maxsize", None)
+        n = int(cap) if cap else 24
+        spec = lambda k: f"EPSG:{3000 + k}"  # noqa: E731
+        # the state, built in this order: `pre` entries, then the pair (e, d) with a transformer
+        # between them, then the rest up to a full cache -- so the pair is among the oldest entries
+        _ix = lambda v: v if isinstance(v, int) else symx._sym_index(v)  # noqa: E731
+        pre = _ix(Int("entries_before_the_pair", 0, 3))
+        for k in range(pre):
+            CRS(spec(k))
+        e, d = pre, pre + 1
+        xy = bool(Bool("always_xy"))
+        t0 = CRS(spec(e)).transformer_to_crs(CRS(spec(d)), always_xy=xy)
+        del t0
+        for k in range(pre + 2, n):
+            CRS(spec(k))
+        gc.collect()
+        # the step: one or two constructions from unseen specifications
+        m = _ix(Int("new_specs", 0, 5))
+        for k in range(m):
+            CRS(spec(n + k))
+        gc.collect()
+        fresh = CRS(spec(n + 10))
+        other = CRS(spec(d))
+        tr = crs_mod._make_crs_transform(fresh._crs, other._crs, always_xy=xy)
+        prove("transformer_is_for_the_requested_pair", tr.src_spec == spec(n + 10) and tr.dst_spec == spec(d) and tr.always_xy == xy)
+        tr2 = crs_mod._make_crs_transform(fresh._crs, other._crs, always_xy=not xy)
+        prove("axis_order_flag_is_part_of_the_key", tr2.always_xy == (not xy) and tr2.src_spec == spec(n + 10))
+        del fresh, other, tr, tr2
+    finally:
+        crs_mod._crs_cache.clear()
+        crs_mod._make_crs_transform.cache.clear()
+        crs_mod._CRS, crs_mod.Transformer = saved[0], saved[1]
+        if saved[2] is None:
+            del crs_mod.id
+        else:
+            crs_mod.id = saved[2]
+
+
 def setup_crs():
     setup()
     if symx.concrete_mode():
@@ -559,6 +677,11 @@ OBLIGATIONS = [
        bounds="one CRS with symbolic abstract attributes (see E4), .epsg read or not", stubs=("abstract pyproj (E4)", "_make_crs contract: parsing a printed CRS string back is lossless; 'EPSG:n' gives the authority CRS of code n; the replay pickles real CRS objects built from 9 specifications"), setup=setup_crs),
     Ob("E6_clone", h_clone, fixed(*[dict(tname=t) for t in TYPES]), descr="per type: a value and its unpickled clone (no component shared by identity) are equal, hash equal, share a token",
        functions=tuple(f"{t}.__eq__" for t in TYPES), bounds="symbolic fields as in E1; clone by the __reduce_ex__ protocol (copy.deepcopy) in the symbolic run, by pickle in the replay", setup=setup),
+    Ob("E7_transformer_step", h_transformer_step, fixed(),
+       descr="transformer cache keyed by object address: from a directly constructed full-cache state, after constructions from unseen specifications a requested transformer is one built for the requested pair and axis-order flag",
+       functions=("odc.geo.crs._make_crs", "odc.geo.crs._make_crs_transform", "odc.geo.crs._make_crs_transform_key", "odc.geo.crs.CRS.transformer_to_crs"),
+       bounds="one step from a full CRS cache (its capacity, or 24 entries when unbounded); existing transformer entry for a pair among the oldest entries (0-3 older ones, symbolic); 0-5 new specifications (symbolic); one address-reuse policy (most recently freed first); longer histories are outside the claim",
+       stubs=("pyproj CRS / Transformer replaced by objects on an abstract heap (address = id, freed when CPython drops the last reference)",), setup=setup),
     Ob("E2_transitive", h_triple, fixed(*[dict(tname=t) for t in ALL]), descr="per type: == transitive over three values", functions=tuple(f"{t}.__eq__" for t in ALL),
        bounds="three values per type", setup=setup, timeout_ms=20000),
     Ob("E3_other_types", h_other_type, fixed(*[dict(tname=t) for t in ALL if t not in ("Shape2d", "BoundingBox")]), descr="never equal to None / int / str / unrelated tuple",
